@@ -153,14 +153,23 @@ impl Sources {
         Self::from_features(cfg.feats.iter().enumerate().map(|(i, f)| f.parse(i)).collect())
     }
 
-    fn caps() -> regex::CaptureLocations {
-        regex::Regex::new("x").unwrap().capture_locations()
+    /// Capture locations as a matched definition yields them: an outer group with a
+    /// nested one that ends before its parent, a group up to the end, the whole match.
+    fn caps(text: &str) -> regex::CaptureLocations {
+        thread_local! {
+            static RE: regex::Regex = regex::Regex::new(r"^((\S+) \S+)(.*)$").unwrap();
+        }
+        RE.with(|re| {
+            let mut locs = re.capture_locations();
+            let _ = re.captures_read(&mut locs, text);
+            locs
+        })
     }
 
-    fn step_event(ev: &StepEv) -> event::Step<TW> {
+    fn step_event(ev: &StepEv, text: &str) -> event::Step<TW> {
         match ev {
             StepEv::Started => event::Step::Started,
-            StepEv::Passed => event::Step::Passed(Self::caps(), None),
+            StepEv::Passed => event::Step::Passed(Self::caps(text), None),
             StepEv::Skipped => event::Step::Skipped,
             StepEv::Failed(kind, _) => {
                 let err = if kind == "NotFound" {
@@ -172,7 +181,8 @@ impl Sources {
                 } else {
                     StepError::Panic(std::sync::Arc::new(kind.clone()))
                 };
-                event::Step::Failed(None, None, world(), err)
+                let caps = matches!(err, StepError::Panic(_)).then(|| Self::caps(text));
+                event::Step::Failed(caps, None, world(), err)
             }
         }
     }
@@ -205,10 +215,11 @@ impl Sources {
             }
             ScEv::Step(bg, text, _, e) => {
                 let st = self.steps.get(text).unwrap_or_else(|| panic!("no step {text}")).clone();
+                let ev = Self::step_event(e, &st.value);
                 if *bg {
-                    Scenario::Background(st, Self::step_event(e))
+                    Scenario::Background(st, ev)
                 } else {
-                    Scenario::Step(st, Self::step_event(e))
+                    Scenario::Step(st, ev)
                 }
             }
         };
